@@ -474,6 +474,9 @@ pub enum Mut {
     /// replace (insert = false) or insert one character inside the n-th `"mappings":"…"` /
     /// `"rangeMappings":"…"` string: keeps the JSON intact, so the decoder logic is reached
     MapChar { nth: u8, at: u16, ch: u8, insert: bool },
+    /// put a junk header line of `len` bytes (terminator included) in front: `start` picks the first byte
+    /// among `)]}'`, `ending` the terminator (\n, \r\n, bare \r, none)
+    JunkHeader { len: u32, start: u8, ending: u8 },
 }
 
 pub const DICT: &[&str] = &[
@@ -588,6 +591,15 @@ fn apply_muts(mut b: Vec<u8>, muts: &[Mut]) -> Vec<u8> {
                         b[i] = c;
                     }
                 }
+            }
+            Mut::JunkHeader { len, start, ending } => {
+                let term: &[u8] = [b"\n".as_slice(), b"\r\n", b"\r", b""][usize::from(*ending) % 4];
+                let n = (*len as usize).max(1 + term.len());
+                let mut h = vec![b")]}'"[usize::from(*start) % 4]];
+                h.resize(n - term.len(), b'x');
+                h.extend_from_slice(term);
+                h.extend_from_slice(&b);
+                b = h;
             }
             Mut::ReplaceNumber(nth, with) => {
                 // find the nth run of ASCII digits outside of... anywhere; replace by an edge number
@@ -986,6 +998,33 @@ fn mutated(t: Tier) -> BoxedStrategy<Case> {
         .boxed()
 }
 
+/// Documents behind a junk header whose line terminator falls on, just before or just behind a multiple of the
+/// reader's 8 KiB buffer (and short headers), optionally mutated afterwards.
+fn long_headers(_t: Tier) -> BoxedStrategy<Case> {
+    let len = prop_oneof![
+        6 => (1u32..5, 0u32..8).prop_map(|(k, d)| k * 8192 + d - 4),
+        1 => 1u32..40,
+        1 => 8000u32..8400,
+    ];
+    (
+        prop_oneof![
+            3 => doc_strategy(Tier::Quick, true).prop_map(Base::Doc),
+            1 => Just(Base::Bytes(vec![])),
+            1 => Just(Base::Bytes(b"\n{}".to_vec())),
+            1 => loose_strategy().prop_map(Base::Loose),
+        ],
+        len,
+        any::<u8>(),
+        0u8..4,
+        vec(mut_strategy(), 0..2),
+    )
+        .prop_map(|(base, len, start, ending, mut muts)| {
+            muts.insert(0, Mut::JunkHeader { len, start, ending });
+            Case { base, muts }
+        })
+        .boxed()
+}
+
 fn arbitrary_bytes(_t: Tier) -> BoxedStrategy<Case> {
     prop_oneof![
         2 => vec(any::<u8>(), 0..64).prop_map(Base::Bytes),
@@ -1058,6 +1097,7 @@ pub fn subs() -> Vec<Sub> {
         gen_sub("structured", structured, |t| t.pick(6_000, 300_000), check),
         gen_sub("mutated", mutated, |t| t.pick(6_000, 300_000), check),
         gen_sub("arbitrary", arbitrary_bytes, |t| t.pick(4_000, 200_000), check),
+        gen_sub("long_headers", long_headers, |t| t.pick(1_500, 40_000), check),
     ];
     v.push(super::fuzzrun::fuzz_sub::<Case>("fuzz", "c05", check, |b| Case { base: Base::Bytes(b), muts: vec![] }));
     v
@@ -1069,7 +1109,7 @@ pub const DEF: PropertyDef = PropertyDef {
            extreme numbers, mismatched array lengths, nested and 1..139-deep sections, malformed Hermes payloads, wild VLQ deltas up to 62 bits \
            with negative running sums, wild rangeMappings) and valid models of all kinds. mutated: 1..5 byte-level mutations (bit flips, \
            dictionary insertions, deletions, truncation, duplication, number replacement) of corpus files and generated documents. arbitrary: \
-           random bytes / dictionary soup. thorough: coverage-guided libFuzzer campaign with the same battery in the target. \
+           random bytes / dictionary soup. long_headers: documents behind a junk header line whose terminator (\\n, \\r\\n, bare \\r, none) falls within 4 bytes of a multiple of the reader's 8 KiB buffer. thorough: coverage-guided libFuzzer campaign with the same battery in the target. \
            Non-trivial = the input decodes to a map or is rejected by a semantic rule (not a JSON syntax error)",
     assumptions: &[
         "allocation bound: bytes requested during decode <= 256 x input length + 64 KiB (counting allocator, deterministic)",
